@@ -228,6 +228,29 @@ pub struct Report {
     pub extra: Value,
 }
 
+/// Probes every run of a check is expected to hit at least once (reach
+/// failures are reported in the evidence as `probes_zero`, never hidden).
+pub fn expected_probes(prop: &str) -> &'static [&'static str] {
+    match prop {
+        "C01" => &["zero-gates", "one-gate", "gates-power-of-two", "gates-one-past-power-of-two", "gates-one-short-of-power-of-two", "gates-only-in-phase2", "phase2-present-gate-free", "prover-capacity-at-threshold", "verifier-capacity-at-threshold", "non-default-bases", "pending-crossed-phase-boundary", "commit-after-constrain", "commit-after-gate", "gate-while-pending", "pair-closed-after-other-gates", "constraint-constants-only", "constraint-committed-only", "zero-coefficient-term", "interleaved-sessions-equal-solo"],
+        "C02" => &["cell:F10-wire-value:p1:unsatisfied", "cell:F10-wire-value:p2:unsatisfied", "cell:F10-gate-out:p1:unsatisfied", "cell:F10-gate-out:p2:unsatisfied", "cell:F10-gate-left:p1:unsatisfied", "cell:F10-gate-left:p2:unsatisfied", "cell:F10-gate-right:p1:unsatisfied", "cell:F10-gate-right:p2:unsatisfied", "cell:F10-constant:p1:unsatisfied", "cell:F10-constant:p2:unsatisfied", "cell:F10-commit-value:p1:unsatisfied", "cell:F10-wire-value:p1:still-satisfied", "batch-leg-rejected", "batch-pair-with-complementary-error"],
+        "C03" => &["agree:accept:all", "adversary:agree:accept:a1", "adversary:agree:reject:a0", "adversary:identity-commitment-produced", "relation-b-repaired"],
+        "C04" => &["rejected-at-decoding", "tampered-proof-still-decoded", "decoded-to-identical-object"],
+        "C05" => &["twin-accepted", "misdelivery-same-bound-context(no-demand)"],
+        "C06" => &["followup-equal", "rejected-delivery-history-checked", "stopped-at-identity-point"],
+        "C07" => &["batch-rng-used", "scenario:empty-batch:all-valid", "scenario:all-honest:all-valid", "scenario:duplicate-delivery:all-valid", "scenario:plus-minus-d:a:some-invalid", "scenario:plus-minus-d:b:some-invalid", "scenario:zero-sum-triple:some-invalid", "scenario:affine-weight-cancelling-triple:some-invalid", "scenario:quadratic-weight-cancelling-quadruple:some-invalid", "scenario:misdelivered-member:some-invalid", "scenario:one-bad-witness:some-invalid", "scenario:one-tampered:some-invalid"],
+        "C08" => &["garbage-rejected-at-decoding", "garbage-decoded", "stream-read-fault-fired", "stream-write-fault-fired"],
+        "C09" => &["keying-ok", "independence-checked", "attribution-total-and-injective", "opened-against-refprover", "statement-fixed-component-equal(allowed)"],
+        "C10" => &["agree-accept", "agree-reject", "degenerate-identity-cross-term"],
+        "C11" => &["bad-point:no-point-for-coordinate", "bad-point:both-flag-bits", "bad-point:small-order-point", "bad-point:P+T", "bad-point:cancelling-pairs"],
+        "C12" => &["increase-below-or-at-current(no-op)", "view-n0-m>=2", "pinned-digest-match"],
+        "C16" => &["missing-assignment-reported", "full-session-phase2-lockstep", "phase2-missing-assignment-surfaces-from-prove", "pending-crossed-phase-boundary", "pair-closed-after-other-gates", "gate-while-pending"],
+        "C17" => &["capacity==threshold", "capacity==threshold-1", "proof-bytes-equal-across-slack"],
+        "C18" => &["wrong-statement-rejected", "fresh-session-follows-recorded-schedule", "generator-digests-reproduced"],
+        _ => &[],
+    }
+}
+
 pub const REAL: [&str; 6] = [
     "ark-bulletproofs (all of /repo, built from the working tree with feature verif-hooks)",
     "arkworks field/group arithmetic, MSM, (de)serialisation",
@@ -323,12 +346,11 @@ pub fn finish(ctx: &Ctx, stats: Stats, rep: Report) -> i32 {
     } else {
         0.0
     };
-    let probes_zero: Vec<&String> = stats
-        .probes
-        .iter()
-        .filter(|(_, v)| **v == 0)
-        .map(|(k, _)| k)
-        .collect();
+    let mut probes_all = stats.probes.clone();
+    for p in expected_probes(ctx.prop) {
+        probes_all.entry(p.to_string()).or_insert(0);
+    }
+    let probes_zero: Vec<String> = probes_all.iter().filter(|(_, v)| **v == 0).map(|(k, _)| k.clone()).collect();
     let samples: Vec<Value> = stats.samples.values().cloned().collect();
     let mut coverage = json!({
         "evaluations": stats.evaluations,
@@ -341,7 +363,7 @@ pub fn finish(ctx: &Ctx, stats: Stats, rep: Report) -> i32 {
         "runs_per_hour": runs_per_hour as u64,
         "seeds": {"VERIF_SEED": ctx.seed, "derivation": "run i uses sub_rng(VERIF_SEED, property, i, stream)"},
         "fault_kinds_fired": stats.faults,
-        "probes": stats.probes,
+        "probes": probes_all,
         "probes_zero": probes_zero,
         "counters": stats.counters,
         "event_log_digest": hex(&stats.digest),
